@@ -17,12 +17,24 @@ ops
   start <a> <t> <r>[,<r>…]                       -> `<dump a> | <outs>`   (a's handshake attempt towards t runs StartRelays with these relays)
   migrate <a> <b>                                -> `<dump a> | <outs>` | no-old-tunnel | skipped-multi
                                                     (a's connection manager migrates the used relays of its second-newest hostinfo for b to the primary)
+  batchclose <a> <b> <type> <init> <resp> <oldFrom> <oldTo> <from|nil> <to|nil>
+                                                 -> `<dump b> | <outs> | <relaysdump b>`  (a sends CloseTunnel and then this control
+                                                    message on the same tunnel; b receives both in ONE receive batch, so the second
+                                                    is handled on the cached, already deleted hostinfo)
+  smigrate <a> <b> <0|1|2>                       -> `<dump a> | <outs> | <relaysdump a>` | no-old-tunnel | skipped-multi
+                                                    (migrateRelayUsed(old, new) racing a teardown: pointers taken, then closeTunnel on
+                                                    new (0) / old (1) / both (2), then the call with the kept pointers)
+  sstart <a> <t> <r>                             -> `<dump a> | <outs> | <relaysdump a> | fired:<0|1>`  (StartRelays towards t with the
+                                                    single relay r; r's tunnel is torn down between the lookup and AddRelay's lock)
+  relaysdump <a>                                 -> `<relaysdump a>`
+relaysdump: `x:<relay index>:<owner local index>:<owner in hostmap>:<index in owner's relay state>` sorted by index, `-` if empty
 outs: `s:<node>` control message queued for node, `hs:<addr>` handshake started, `v:<node>:<idx>` handshake sent through a relay
 dump (+ `u:<idx>` per connectionManager.relayUsed entry): `a:<amRelay> {h:<id>:<remoteId>:<remoteValid>:<addr,…>:<mapsAgree> {r:<idx>:<type>:<state>:<remoteIdx>:<peer>}} {m:<idx>:<hostId>}`
 -/
 import Nebula.Driver.Common
 import Nebula.Driver.NetArgs
 import Nebula.Model.Relay
+import Nebula.Model.RelayStale
 import Nebula.Spec.Relay
 
 namespace Nebula.Driver.Relayctl
@@ -113,18 +125,54 @@ def parseDump (myAddrs : List Addr) (toks : List String) : Option Node :=
 
 /-- property oracle on a node state reported by the implementation, `before` being the spec state of
 that node before the op. `deleted` = hostinfo closed by this op (if any). -/
-def stateVerdict (before : Node) (toks : List String) (deleted : Option Nat) : String :=
+def stateVerdictL (before : Node) (toks : List String) (deleted : List Nat) : String :=
   match parseDump before.myAddrs toks with
   | none => "bad dump-unparsable"
   | some n' =>
     if !mapsAgree toks then "bad relay-maps-disagree"
     else if !Spec.Relay.noSelfRecords n' then "bad fwd-record-to-self"
+    else if !Spec.Relay.relayOwnersLive n' then "bad relay-index-outlives-tunnel"
+    else if !Spec.Relay.relayIndexInOwnerState n' then "bad relay-index-not-in-owner-state"
     else if !Spec.Relay.relaysOwned n' then "bad relay-index-dangling"
-    else if !(match deleted with | some hid => Spec.Relay.noIndexOf n' hid | none => true) then "bad relay-index-outlives-owner"
+    else if !Spec.Relay.stateIndexesRegistered n' then "bad relay-state-index-unregistered"
+    else if !(deleted.all (fun hid => Spec.Relay.noIndexOf n' hid)) then "bad relay-index-outlives-owner"
     else if !Spec.Relay.newForwardingNeedsAmRelay before n' then "bad fwd-record-without-amrelay"
     else if !Spec.Relay.identityStable before n' then "bad record-identity-changed"
     else if !Spec.Relay.statesValid before n' then "bad record-state-invalid"
     else "ok"
+
+def stateVerdict (before : Node) (toks : List String) (deleted : Option Nat) : String :=
+  stateVerdictL before toks deleted.toList
+
+-- ---- relaysdump (hm.Relays by pointer)
+
+def relaysDumpToks (n : Node) : List String :=
+  (sortBy (·.1) n.relays).map (fun p =>
+    let o := n.findHost p.2
+    s!"x:{p.1}:{p.2}:{boolStr o.isSome}:{boolStr (match o with | some h => (h.byIdx p.1).isSome | none => false)}")
+
+def relaysDump (n : Node) : String :=
+  let t := relaysDumpToks n
+  if t.isEmpty then "-" else " ".intercalate t
+
+/-- the k-th ` |`-separated segment of an answer, as tokens. -/
+def segTokens (s : String) (k : Nat) : List String :=
+  (((s.splitOn " |")[k]?).getD "").splitOn " " |>.filter (· ≠ "")
+
+/-- property oracle on a relaysdump reported by the implementation: a key of `hm.Relays` whose owner is
+not in the hostmap; a key that the owner's relay state does not list. -/
+def relaysVerdict (toks : List String) : String :=
+  toks.foldl (fun acc t =>
+    if acc != "ok" then acc else
+    match splitColon t with
+    | ["x", idx, owner, live, inst] =>
+      if live != "1" then s!"bad relay-index-outlives-tunnel index {idx} owner {owner}"
+      else if inst != "1" then s!"bad relay-index-not-in-owner-state index {idx} owner {owner}"
+      else "ok"
+    | ["-"] => "ok"
+    | _ => "bad relaysdump-unparsable") "ok"
+
+def both (v1 v2 : String) : String := if v1 != "ok" then v1 else v2
 
 -- ---- cluster plumbing
 
@@ -135,11 +183,12 @@ def addUsed (n : Node) (i : Nat) : Node := if n.relayUsed.contains i then n else
 
 /-- route what a handler emitted at node `i`; returns the new cluster and the `outs` tokens (queued control
 messages in order, then newly pending handshakes by address, then handshakes sent through a relay). -/
-def route (cl : Cl) (i : Nat) (pendingBefore : List Addr) (outs : List Relay.Out) : Cl × List String :=
+def route (cl : Cl) (i : Nat) (pendingBefore : List Addr) (outs : List Relay.Out) (dead : List Host := []) : Cl × List String :=
   let r := outs.foldl (fun (acc : Cl × List String × List Addr × List String) o =>
     match o with
     | .send hid m =>
-      match (getNode acc.1 i).bind (·.findHost hid) with
+      -- SendMessageToHostInfo on a torn-down hostinfo object still seals with its keys and writes to its remote
+      match ((getNode acc.1 i).bind (·.findHost hid)).orElse (fun _ => dead.find? (fun h => h.id == hid)) with
       | some h =>
         if h.remoteValid then
           match addrNode (h.vpnAddrs.headD 0) with
@@ -299,7 +348,8 @@ def step (cl : Cl) (args : List String) (impl : String) : Cl × Driver.Out :=
     | some a, some t =>
       match getNode cl a with
       | some na =>
-        let relays := ((rl.splitOn ",").filterMap (fun x => x.toNat?.map nodeAddr)).eraseDups
+        -- RemoteList.unlockedSort de-duplicates the relay list and sorts it by address
+        let relays := sortBy id ((rl.splitOn ",").filterMap (fun x => x.toNat?.map nodeAddr)).eraseDups
         let (na', c', outs) := startRelays na cl.c (nodeAddr t) false relays
         let cl1 := { setNode cl a na' with c := c' }
         let (cl2, toks) := route cl1 a na.pending outs
@@ -338,6 +388,78 @@ def step (cl : Cl) (args : List String) (impl : String) : Cl × Driver.Out :=
         | _ => (cl, { model := "no-old-tunnel", tag := "triv:migrate-no-old" })
       | none => (cl, badOp)
     | _, _ => (cl, badOp)
+  | ["relaysdump", a] =>
+    match a.toNat?.bind (getNode cl) with
+    | some na => (cl, { model := relaysDump na, verdict := relaysVerdict (segTokens impl 0), tag := "triv:relaysdump" })
+    | none => (cl, badOp)
+  | ["batchclose", a, b, ty, ini, rsp, oldF, oldT, frm, to] =>
+    match a.toNat?, b.toNat?, ty.toNat?, ini.toNat?, rsp.toNat?, oldF.toNat?, oldT.toNat?, parseOptAddr frm, parseOptAddr to with
+    | some a, some b, some ty, some ini, some rsp, some oldF, some oldT, some frm, some to =>
+      match getNode cl a, getNode cl b with
+      | some na, some nb =>
+        let m : Ctl := { type := ty, initIdx := ini, respIdx := rsp, oldFrom := oldF, oldTo := oldT, frm := frm, to := to }
+        match na.queryVpnAddr (nodeAddr b) with
+        | none => (cl, { model := "no-tunnel", tag := "triv:batch-no-tunnel" })
+        | some ha =>
+          if !ha.remoteValid then (cl, { model := "no-tunnel", tag := "triv:batch-no-remote" }) else
+          match nb.findHost ha.remoteId with
+          | none =>
+            -- no such index at b: both datagrams are dropped
+            (cl, { model := dump nb ++ " | | " ++ relaysDump nb, tag := "batch:stale-tunnel",
+                   verdict := both (relaysVerdict (segTokens impl 2)) (stateVerdictL nb (dumpTokens impl) []) })
+          | some hb =>
+            -- datagram 1 (CloseTunnel): roams, then closeTunnel; datagram 2: HandleControlMsg on the cached pointer
+            let d0 : Host := { hb with remoteValid := true }
+            let nb1 := deleteHost nb hb.id
+            let (nb2, d1, c', outs) := staleHandleControl nb1 cl.c d0 m
+            let cl1 := { setNode cl b nb2 with c := c' }
+            let (cl2, toks) := route cl1 b nb.pending outs [d1]
+            (cl2, { model := dump nb2 ++ " |" ++ String.join (toks.map (" " ++ ·)) ++ " | " ++ relaysDump nb2,
+                    tag := "batch:" ++ tagCtl nb hb.id m,
+                    verdict := both (relaysVerdict (segTokens impl 2)) (stateVerdictL nb (dumpTokens impl) [hb.id]) })
+      | _, _ => (cl, badOp)
+    | _, _, _, _, _, _, _, _, _ => (cl, badOp)
+  | ["smigrate", a, b, w] =>
+    match a.toNat?, b.toNat?, w.toNat? with
+    | some a, some b, some w =>
+      match getNode cl a with
+      | some na =>
+        match na.hostsFor (nodeAddr b) with
+        | nw :: old :: _ =>
+          let acting := old.recs.filter (fun r =>
+            !(r.type == nebula_ForwardingType && !na.amRelay) &&
+            (match nw.byAddr r.peerAddr with
+              | some ex => ex.state == nebula_Requested
+              | none => na.relayUsed.contains r.localIndex))
+          if acting.length > 1 then (cl, { model := "skipped-multi", tag := "triv:smigrate-multi" }) else
+          let s0 : SNode := { node := na }
+          let s1 := if w == 1 || w == 2 then sDelete s0 old.id else s0
+          let s2 := if w == 0 || w == 2 then sDelete s1 nw.id else s1
+          let (s3, c', outs) := sMigrate s2 cl.c old.id nw.id false
+          let cl1 := { setNode cl a s3.node with c := c' }
+          let (cl2, toks) := route cl1 a na.pending outs s3.dead
+          let tag := s!"smigrate:{w}:" ++ (if acting.isEmpty then "nothing" else
+            s!"type-{(acting.headD default).type}-" ++ (if (nw.byAddr (acting.headD default).peerAddr).isSome then "resend" else "add"))
+          (cl2, { model := dump s3.node ++ " |" ++ String.join (toks.map (" " ++ ·)) ++ " | " ++ relaysDump s3.node,
+                  tag := tag,
+                  verdict := both (relaysVerdict (segTokens impl 2))
+                    (stateVerdictL na (dumpTokens impl) ((if w == 1 || w == 2 then [old.id] else []) ++ (if w == 0 || w == 2 then [nw.id] else []))) })
+        | _ => (cl, { model := "no-old-tunnel", tag := "triv:smigrate-no-old" })
+      | none => (cl, badOp)
+    | _, _, _ => (cl, badOp)
+  | ["sstart", a, t, r] =>
+    match a.toNat?, t.toNat?, r.toNat? with
+    | some a, some t, some r =>
+      match getNode cl a with
+      | some na =>
+        let (s', c', outs, fired) := raceStart { node := na } cl.c (nodeAddr t) false (nodeAddr r)
+        let cl1 := { setNode cl a s'.node with c := c' }
+        let (cl2, toks) := route cl1 a na.pending outs s'.dead
+        (cl2, { model := dump s'.node ++ " |" ++ String.join (toks.map (" " ++ ·)) ++ " | " ++ relaysDump s'.node ++ " | fired:" ++ boolStr fired,
+                tag := if fired then "sstart:teardown-before-addrelay" else "sstart:no-addrelay",
+                verdict := both (relaysVerdict (segTokens impl 2)) (stateVerdictL na (dumpTokens impl) (s'.dead.map (·.id))) })
+      | none => (cl, badOp)
+    | _, _, _ => (cl, badOp)
   | ["fwd", s, r, idx] =>
     match s.toNat?, r.toNat?, idx.toNat? with
     | some s, some r, some idx =>
